@@ -18,6 +18,9 @@ theorem Ethernet_eq_iff (a b : Eth) : Eth.eq a b = true ↔ a = b := by
 theorem Ethernet_eq_sound (a b : Eth) (fcs : Bool) (h : Eth.eq a b = true) : (Eth.pack a fcs).2 = (Eth.pack b fcs).2 := by
   rw [(Ethernet_eq_iff a b).1 h]
 
+example : Eth.eq { Eth.fresh with dstmac := 0x01005E000001, vlan := true, vlantag := 5, payload := [1, 2, 3] }
+    { Eth.fresh with dstmac := 0x01005E000001, vlan := true, vlantag := 5, payload := [1, 2, 3] } = true := by decide
+
 /-- an object decoded (into any prior state) from a's encoding compares equal to a — when a is in the canonical
     form the decoder produces (an untagged frame has the tag sentinel 0xFFFF) -/
 theorem Ethernet_eq_decode (a t : Eth) (fcs : Bool) (h : Eth_WF a) (hc : a.vlan = false → a.vlantag = 0xFFFF) :
@@ -28,6 +31,13 @@ theorem Ethernet_eq_decode (a t : Eth) (fcs : Bool) (h : Eth_WF a) (hc : a.vlan 
   cases hv : a.vlan
   · cases a; simp_all
   · cases a; simp_all
+
+/-- non-vacuity: a VLAN-tagged frame (the canonical-form hypothesis is then void) and an untagged one in canonical form -/
+example : Eth_WF { Eth.fresh with dstmac := 0x01005E000001, srcmac := 0x000C4D000A6C, vlan := true, vlantag := 5, payload := [1, 2, 3] } ∧
+    Eth_WF { Eth.fresh with dstmac := 0x01005E000001, payload := [1, 2, 3] } ∧
+    (({ Eth.fresh with dstmac := 0x01005E000001, payload := [1, 2, 3] } : Eth).vlan = false →
+     ({ Eth.fresh with dstmac := 0x01005E000001, payload := [1, 2, 3] } : Eth).vlantag = 0xFFFF) := by
+  simp [Eth_WF, Eth.fresh, ETH_TYPE_IP, ETH_TYPE_VLAN, ETH_DEFAULT_VLANTAG]
 
 /-- without the canonical form the decoded object differs (and is reported unequal): the tag of an untagged frame is
     not on the wire -/
@@ -45,9 +55,14 @@ theorem ARP_eq_iff (a b : ARP) : ARP.eq a b = true ↔ a = b := by
 theorem ARP_eq_sound (a b : ARP) (h : ARP.eq a b = true) : (ARP.pack a).2 = (ARP.pack b).2 := by
   rw [(ARP_eq_iff a b).1 h]
 
+example : ARP.eq { ARP.fresh with dstip := some 0xC0A81C02 } { ARP.fresh with dstip := some 0xC0A81C02 } = true := by decide
+
 theorem ARP_eq_decode (a t : ARP) (sip dip : Nat) (h : ARP_WF a sip dip) :
     ∃ b, (ARP.pack a).2 = .ok b ∧ (ARP.unpack t b).2 = .ok () ∧ ARP.eq a (ARP.unpack t b).1 = true := by
   obtain ⟨b, hp, hu, _⟩ := C02.ARP_roundtrip a t sip dip h
   exact ⟨b, hp, by rw [hu], by rw [hu, ARP_eq_iff]⟩
+
+example : ARP_WF { ARP.fresh with dstip := some 0xC0A81C02 } 0 0xC0A81C02 := by
+  simp [ARP_WF, ARP.fresh, ARP_DEFAULT_HARDWARE_TYPE, ETH_TYPE_IP, ETH_ADDR_LENGTH, IP_ADDR_LENGTH, ARP_OPER_REQUEST]
 
 end Acra.Props.C14
